@@ -48,6 +48,8 @@ func next(name string) uint64 {
 	if cur == nil {
 		panic("zzverifenv: nondet value requested outside a replay")
 	}
+	stateMu.Lock()
+	defer stateMu.Unlock()
 	k := cur.seq[name]
 	cur.seq[name] = k + 1
 	return cur.c.Values[fmt.Sprintf("%s#%d", name, k)]
@@ -68,13 +70,21 @@ func Assume(c bool) {
 	}
 }
 
+var stateMu sync.Mutex
+
 func Assert(label string, c bool) {
 	if !c {
+		stateMu.Lock()
 		cur.failed = append(cur.failed, label)
+		stateMu.Unlock()
 	}
 }
 
-func Reach(label string) { cur.reached = append(cur.reached, label) }
+func Reach(label string) {
+	stateMu.Lock()
+	cur.reached = append(cur.reached, label)
+	stateMu.Unlock()
+}
 
 func Note(s string) { cur.notes = append(cur.notes, s) }
 
@@ -221,6 +231,18 @@ func ChanOffer(ch interface{}, v interface{}) {
 // ChanTaker: another goroutine is blocked receiving from ch.
 func ChanTaker(ch interface{}) {
 	go func() { reflect.ValueOf(ch).Recv() }()
+}
+
+// ChanOnRecv: another goroutine is blocked receiving from ch; f is called with the value it receives.
+func ChanOnRecv(ch interface{}, f func(v interface{})) {
+	go func() {
+		v, ok := reflect.ValueOf(ch).Recv()
+		if ok {
+			atomic.AddInt32(&pendingOffers, 1) // keep the loop context alive while the callback runs
+			f(v.Interface())
+			atomic.AddInt32(&pendingOffers, -1)
+		}
+	}()
 }
 
 func ChanPending(ch interface{}) int  { return int(atomic.LoadInt32(&pendingOffers)) }
